@@ -5,33 +5,85 @@ From SwiftMT Require Import gen.Families gen.Specs.
 Local Open Scope string_scope.
 Local Open Scope list_scope.
 
+(* The facts below are stated in the unfolded form the proofs use and proved by one VM evaluation at Qed
+   (a lemma stated through a defined constant made later proofs re-evaluate the analysis in the kernel's
+   lazy machine: minutes instead of seconds). *)
 Lemma gen_inclusion_ok : inclusion_ok = true.
-Proof. vm_compute. reflexivity. Qed.
-(* the same fact in the form the proofs below use (stated separately so that no proof term asks the kernel to
-   convert [inclusion_ok] into its definition by evaluating the analysis a second time outside the VM) *)
+Proof. vm_cast_no_check (eq_refl true). Qed.
 Lemma gen_inclusion_forall : forallb (fun p => mem (fst p) inclusion_open || check_type (fst p)) specs = true.
-Proof. vm_compute. reflexivity. Qed.
+Proof. vm_cast_no_check (eq_refl true). Qed.
+Lemma gen_restricted_forall : forallb (fun p => check_restricted (fst p)) specs_restricted = true.
+Proof. vm_cast_no_check (eq_refl true). Qed.
+Lemma gen_deletions_forall :
+  forallb (fun p => forallb (fun d => pair_mem (fst p, fst d) deletion_open || check_deletion (fst p) (snd d)) (snd p)) spec_deletions = true.
+Proof. vm_cast_no_check (eq_refl true). Qed.
 
 (* the hypothesis on a token: every parser the layout may apply to it answers as [fp] says *)
 Definition good_token (fparse : bytes -> option bytes -> bytes -> bool) (L : list stmt) (k : tok) : Prop :=
   good fparse fp (uses L) k.
 
-Theorem spec_inclusion : forall T L R, lookup T all_layouts = Some L -> lookup T specs = Some R -> mem T inclusion_open = false ->
-  forall fparse toks, matches R (map fst toks) -> Forall (good_token fparse L) toks ->
+Lemma layout_progress : forall T L, lookup T all_layouts = Some L -> loops_ok L = true /\ In (T, L) all_layouts.
+Proof.
+  intros T L EL. assert (HL : In (T, L) all_layouts) by (apply lookup_some_in; exact EL). split; [|exact HL].
+  pose proof gen_layouts_progress as PR. unfold layouts_progress in PR. rewrite forallb_forall in PR.
+  exact (PR (T, L) HL).
+Qed.
+
+Lemma alts_accept : forall T L alts, lookup T all_layouts = Some L -> check_alts T alts = true ->
+  forall fparse toks, spec_lang alts (map fst toks) -> Forall (good_token fparse L) toks ->
   forall f, lsize L + List.length toks + 1 <= f ->
   exists its, trun fparse f L toks = Accept its /\ map tok_of its = toks.
 Proof.
-  intros T L R EL HR Hopen fparse toks Hm Hg f Hf.
-  pose proof gen_inclusion_forall as OK. rewrite forallb_forall in OK.
-  assert (HinS : In (T, R) specs) by (apply lookup_some_in; exact HR).
-  specialize (OK (T, R) HinS). cbn [fst] in OK. rewrite Hopen in OK. cbn [orb] in OK.
-  unfold check_type in OK. rewrite EL, HR in OK.
-  assert (HL : In (T, L) all_layouts) by (apply lookup_some_in; exact EL).
-  pose proof gen_layouts_progress as PR. unfold layouts_progress in PR. rewrite forallb_forall in PR.
-  pose proof (PR (T, L) HL) as PL. cbn [snd] in PL.
+  intros T L alts EL OK fparse toks [R [HR Hm]] Hg f Hf.
+  unfold check_alts in OK. rewrite EL in OK. rewrite forallb_forall in OK. specialize (OK R HR).
+  destruct (layout_progress T L EL) as [PL HL].
   destruct (includes_accepts fparse fp (uses L) 400 L R OK PL toks Hm Hg f Hf) as [its Hits].
   exists its. split; [exact Hits|].
   exact (proj1 (accept_exact fparse L f toks its (layout_wf T L HL) Hits)).
+Qed.
+
+Theorem spec_inclusion : forall T L alts, lookup T all_layouts = Some L -> lookup T specs = Some alts -> mem T inclusion_open = false ->
+  forall fparse toks, spec_lang alts (map fst toks) -> Forall (good_token fparse L) toks ->
+  forall f, lsize L + List.length toks + 1 <= f ->
+  exists its, trun fparse f L toks = Accept its /\ map tok_of its = toks.
+Proof.
+  intros T L alts EL HR Hopen. apply (alts_accept T L alts EL).
+  pose proof gen_inclusion_forall as OK. rewrite forallb_forall in OK.
+  assert (HinS : In (T, alts) specs) by (apply lookup_some_in; exact HR).
+  specialize (OK (T, alts) HinS). cbn [fst] in OK. rewrite Hopen in OK. cbn [orb] in OK.
+  unfold check_type in OK. rewrite HR in OK. exact OK.
+Qed.
+
+(* ---- the open types: the specification minus the listed deviations is accepted *)
+Theorem spec_inclusion_restricted : forall T L alts, lookup T all_layouts = Some L -> lookup T specs_restricted = Some alts ->
+  forall fparse toks, spec_lang alts (map fst toks) -> Forall (good_token fparse L) toks ->
+  forall f, lsize L + List.length toks + 1 <= f ->
+  exists its, trun fparse f L toks = Accept its /\ map tok_of its = toks.
+Proof.
+  intros T L alts EL HR. apply (alts_accept T L alts EL).
+  pose proof gen_restricted_forall as OK. rewrite forallb_forall in OK.
+  assert (HinS : In (T, alts) specs_restricted) by (apply lookup_some_in; exact HR).
+  specialize (OK (T, alts) HinS). cbn [fst] in OK. unfold check_restricted in OK. rewrite HR in OK. exact OK.
+Qed.
+
+(* ---- C09: a text whose tags are a word of the specification with one mandatory element missing is rejected *)
+Theorem deletion_rejected : forall T L ds what D, lookup T all_layouts = Some L -> lookup T spec_deletions = Some ds ->
+  In (what, D) ds -> pair_mem (T, what) deletion_open = false ->
+  forall fparse toks, matches D (map fst toks) -> Forall (good_token fparse L) toks ->
+  forall f, lsize L + List.length toks + 1 <= f ->
+  exists e, trun fparse f L toks = Reject e /\ reject_ok fparse toks e.
+Proof.
+  intros T L ds what D EL HD Hin Hopen fparse toks Hm Hg f Hf.
+  pose proof gen_deletions_forall as OK. rewrite forallb_forall in OK.
+  assert (HinS : In (T, ds) spec_deletions) by (apply lookup_some_in; exact HD).
+  specialize (OK (T, ds) HinS). cbn [fst snd] in OK. rewrite forallb_forall in OK. specialize (OK (what, D) Hin).
+  cbn [fst snd] in OK. rewrite Hopen in OK. cbn [orb] in OK.
+  unfold check_deletion in OK. rewrite EL in OK.
+  destruct (layout_progress T L EL) as [PL HL].
+  destruct (excludes_rejects fparse fp (uses L) 400 L D OK PL toks Hm Hg f Hf) as [e He].
+  exists e. split; [exact He|].
+  pose proof (layout_wf T L HL) as W. unfold wf_layout in W. apply andb_true_iff in W.
+  exact (reject_sound fparse L f toks e (proj1 W) He).
 Qed.
 
 (* the premises are satisfiable: a parser oracle that answers as [fp] says makes every token good, and a concrete
@@ -44,28 +96,15 @@ Proof. intros L k ty l b _ H. unfold model_fparse. change (fp ty l []) with (fp 
 Example spec_inclusion_is_not_vacuous :
   let toks := map (fun t => (bs t, bs "X")) ["20"; "21"; "13C"; "13C"; "32A"; "52A"; "58D"; "72"; "50F"; "59"; "33B"] in
   match lookup (bs "MT202") specs, lookup (bs "MT202") all_layouts with
-  | Some R, Some L => matchb R (map fst toks) = true /\ (exists its, trun model_fparse 400 L toks = Accept its)
+  | Some alts, Some L => existsb (fun R => matchb R (map fst toks)) alts = true /\ (exists its, trun model_fparse 400 L toks = Accept its)
   | _, _ => False
   end.
 Proof. vm_compute. split; [reflexivity | eexists; reflexivity]. Qed.
 
-(* ---- the open types: the specification minus the listed deviations is accepted *)
-Lemma gen_restricted_forall : forallb (fun p => check_restricted (fst p)) specs_restricted = true.
-Proof. vm_compute. reflexivity. Qed.
-
-Theorem spec_inclusion_restricted : forall T L R, lookup T all_layouts = Some L -> lookup T specs_restricted = Some R ->
-  forall fparse toks, matches R (map fst toks) -> Forall (good_token fparse L) toks ->
-  forall f, lsize L + List.length toks + 1 <= f ->
-  exists its, trun fparse f L toks = Accept its /\ map tok_of its = toks.
-Proof.
-  intros T L R EL HR fparse toks Hm Hg f Hf.
-  pose proof gen_restricted_forall as OK. rewrite forallb_forall in OK.
-  assert (HinS : In (T, R) specs_restricted) by (apply lookup_some_in; exact HR).
-  specialize (OK (T, R) HinS). cbn [fst] in OK. unfold check_restricted in OK. rewrite EL, HR in OK.
-  assert (HL : In (T, L) all_layouts) by (apply lookup_some_in; exact EL).
-  pose proof gen_layouts_progress as PR. unfold layouts_progress in PR. rewrite forallb_forall in PR.
-  pose proof (PR (T, L) HL) as PL. cbn [snd] in PL.
-  destruct (includes_accepts fparse fp (uses L) 400 L R OK PL toks Hm Hg f Hf) as [its Hits].
-  exists its. split; [exact Hits|].
-  exact (proj1 (accept_exact fparse L f toks its (layout_wf T L HL) Hits)).
-Qed.
+Example deletion_is_not_vacuous :
+  let toks := map (fun t => (bs t, bs "X")) ["20"; "21"; "58D"] in      (* an MT202 without its mandatory 32A *)
+  match lookup (bs "MT202") spec_deletions, lookup (bs "MT202") all_layouts with
+  | Some ds, Some L => existsb (fun d => matchb (snd d) (map fst toks)) ds = true /\ (exists e, trun model_fparse 400 L toks = Reject e)
+  | _, _ => False
+  end.
+Proof. vm_compute. split; [reflexivity | eexists; reflexivity]. Qed.
